@@ -183,7 +183,16 @@ func errClass(err error) string {
 	case errors.As(err, &ae):
 		return fmt.Sprintf("app-%d", uint64(ae.ErrorCode))
 	case errors.As(err, &te):
-		return fmt.Sprintf("transport-%#x", uint64(te.ErrorCode))
+		msg := strings.Map(func(r rune) rune {
+			if r == ' ' || r == ';' || r == ':' || r == ',' {
+				return '_'
+			}
+			return r
+		}, te.ErrorMessage)
+		if len(msg) > 80 {
+			msg = msg[:80]
+		}
+		return fmt.Sprintf("transport-%#x(%s)", uint64(te.ErrorCode), msg)
 	case errors.As(err, &ie):
 		return "idle-timeout"
 	case errors.As(err, &he):
